@@ -854,6 +854,14 @@ impl<TokenIter: Iterator<Item = Result<Token>>> Parser<TokenIter> {
     }
 
     fn transform_formals(args: Datum) -> Result<ParameterFormals> {
+        let formals = Self::transform_formals_unchecked(args)?;
+        // every parameter is an identifier: (lambda ((a) b) ...) is rejected here,
+        // not when the procedure is applied
+        formals.clone().split()?;
+        Ok(formals)
+    }
+
+    fn transform_formals_unchecked(args: Datum) -> Result<ParameterFormals> {
         let location = args.location;
         Ok(match args {
             Datum {
